@@ -58,7 +58,7 @@ func nontrivial(c ugen.Case) (bool, string) {
 			if strings.Contains(e.Link, "..") || strings.HasPrefix(e.Link, "/") || strings.HasPrefix(e.Link, "{") {
 				return true, "link-target-climbs-or-absolute"
 			}
-			linkNames[strings.Trim(filepath.Clean("/" + e.Name), "/")] = true
+			linkNames[strings.Trim(filepath.Clean("/"+e.Name), "/")] = true
 		} else {
 			n := strings.Trim(filepath.Clean("/"+e.Name), "/")
 			for l := range linkNames {
@@ -69,6 +69,25 @@ func nontrivial(c ugen.Case) (bool, string) {
 		}
 	}
 	return false, ""
+}
+
+// maskHardLinked drops the differences that replacing a name inside dst
+// necessarily causes on a file which has another name outside: its link count
+// and change time.
+func maskHardLinked(d []string, files []string) []string {
+	var keep []string
+	for _, x := range d {
+		masked := false
+		for _, f := range files {
+			if strings.HasPrefix(x, f+": ctime") || strings.HasPrefix(x, f+": nlink") {
+				masked = true
+			}
+		}
+		if !masked {
+			keep = append(keep, x)
+		}
+	}
+	return keep
 }
 
 func checkContainment(c ugen.Case) error {
@@ -106,6 +125,10 @@ func checkContainment(c ugen.Case) error {
 			keep = append(keep, x)
 		}
 		d = keep
+	}
+	if hl := c.PreHardLinks(); len(hl) > 0 {
+		ev.Label("dst-holds-hard-links-to-outside-files")
+		d = maskHardLinked(d, hl)
 	}
 	if len(d) > 0 {
 		if len(d) > 6 {
@@ -190,7 +213,11 @@ func checkSequence(s ugen.SeqCase) error {
 		if err != nil {
 			return fmt.Errorf("harness: snapshot after: %v", err)
 		}
-		if d := fsx.Diff(before, after, fsx.AllFields); len(d) > 0 {
+		d := fsx.Diff(before, after, fsx.AllFields)
+		if hl := s.First.PreHardLinks(); len(hl) > 0 {
+			d = maskHardLinked(d, hl)
+		}
+		if len(d) > 0 {
 			if len(d) > 6 {
 				d = d[:6]
 			}
